@@ -18,7 +18,8 @@
    change C02_4); Knn_Wrapper_Proof.v refutes it.
 
    fn_shape is the structural table of the fallback block as translate/t_knn_wrapper.py reads it from the source
-   (coq/gen/KnnWrapper.v); fn_shape_model is the shape this model transcribes. *)
+   (coq/gen/KnnWrapper.v; comments, white space, string literals, logger calls, static_cast<IndexType> and the spelling
+   of the row iterator's type removed); fn_shape_model is the shape this model transcribes. *)
 From Coq Require Import String List ZArith Bool.
 From TK Require Import Knn_Spec Knn_Brute_Model.
 Import ListNotations.
@@ -104,11 +105,11 @@ Record fn_shape := mk_fn_shape {
 
 Local Open Scope string_scope.
 Definition fn_shape_model : fn_shape := mk_fn_shape
-  [ "k>static_cast<IndexType>(end-begin-1)"; "k=static_cast<IndexType>(end-begin-1);" ]
+  [ "k>(end-begin-1)"; "k=(end-begin-1);" ]
   [ "if(method.is(Brute))neighbors=find_neighbors_bruteforce_impl(begin,end,callback,k);";
     "if(method.is(VpTree))neighbors=find_neighbors_vptree_impl(begin,end,callback,k);";
     "if(method.is(CoverTree))neighbors=find_neighbors_covertree_impl(begin,end,callback,k);" ]
   "!method.is(Brute)"
-  "for(Neighbors::const_iteratoriter=neighbors.begin();iter!=neighbors.end();++iter)"
-  "static_cast<IndexType>(iter->size())!=k"
+  "for(ITERiter=neighbors.begin();iter!=neighbors.end();++iter)"
+  "(iter->size())!=k"
   [ "neighbors=find_neighbors_bruteforce_impl(begin,end,callback,k);"; "break;" ].
